@@ -7,6 +7,7 @@
 import Rsa.Core.Wire
 import Rsa.Core.Compare
 import Rsa.Core.Eval
+import Rsa.Core.C04Result
 
 open Lean Rsa.Wire Rsa.Eval
 
@@ -126,7 +127,41 @@ def ofCvRow (r : CvRow Float) : Json :=
   | none => Json.null
   | some reps => ofList (fun rep => obj [("evals", ofList (ofList ofOF) rep.1), ("nc", ofPair rep.2)]) reps
 
+/-! ### the assembled `Result` -/
+
+def ofMeta (m : ResultMeta) : Json :=
+  obj [("cv_method", Json.str m.cvMethod), ("eval_shape", ofList ofNat m.evalShape),
+       ("nc_shape", ofList ofNat m.ncShape), ("has_variances", Json.bool m.hasVariances),
+       ("passed_n_rdm", ofOpt ofNat m.passedNRdm), ("passed_n_pattern", ofOpt ofNat m.passedNPattern),
+       ("attr_n_rdm", ofOpt ofNat m.attrNRdm), ("attr_n_pattern", ofOpt ofNat m.attrNPattern)]
+
+/-- is the covariance over these observation rows defined (at least two usable resamples)? -/
+def covDefined (obs : List (List (Option Float))) : Bool :=
+  match covOutcome 1 obs with
+  | .defined _ => true
+  | .undefined => false
+
 /-! ### fold generators for the plain `crossval` op -/
+
+/-- the generators that can reject their arguments, as `SetsReq` -/
+def asSetsReq (j : Json) : R (Option SetsReq) := do
+  let gen ← fld j "gen" >>= asStr
+  match gen with
+  | "k_fold" =>
+    let r ← fld j "rsel" >>= asList asNat
+    let p ← fld j "psels" >>= asList (asList asNat)
+    let kr ← fld j "kr" >>= asNat
+    let kp ← fld j "kp" >>= asNat
+    pure (some (.kFold r kr p kp))
+  | "k_fold_pattern" =>
+    let sel ← fld j "psel" >>= asList asNat
+    let kp ← fld j "kp" >>= asNat
+    pure (some (.kFoldPattern sel kp))
+  | "k_fold_rdm" =>
+    let sel ← fld j "rsel" >>= asList asNat
+    let kr ← fld j "kr" >>= asNat
+    pure (some (.kFoldRdm sel kr))
+  | _ => pure none
 
 def asFolds (d : Data Float) (j : Json) : R (List Rsa.Folds.Fold × Bool) := do
   let gen ← fld j "gen" >>= asStr
@@ -168,61 +203,102 @@ def runOp (j : Json) : R Json := do
   let preds ← asList (asList asFloat) (fldD j "preds" (Json.arr #[]))
   let nModels ← asNat (fldD j "n_models" (ofNat preds.length))
   let bt ← asBt (fldD j "bt" (Json.str "both"))
+  let bigN ← asNat (fldD j "N" (ofNat 0))
+  let eNum ← asFloat (fldD j "e" (ofFloat (Float.exp 1.0)))
+  let gr := (groupsR d).length
+  let gp := (groupsP d).length
+  let sz : Sizes := { N := bigN, nModels := nModels, nRdm := d.vecs.length, nCond := d.nCond }
   match routine with
   | "fixed" =>
     let r := evalFixed m ncf d preds
     pure (obj [("evals", ofList (ofList ofFloat) r.evals), ("nc", ofPair r.nc),
-               ("cov", ofOpt ofMat r.cov), ("dof", ofInt r.dof)])
+               ("cov", ofOpt ofMat r.cov), ("dof", ofInt r.dof),
+               ("meta", ofMeta (resultMeta .fixed sz))])
   | "bootstrap" =>
     let bootNc ← fld j "boot_nc" >>= asBool
     let mo ← asBool (fldD j "rdm_cov_models_only" (Json.bool true))
-    let draws ← fld j "draws" >>= asList asDraw
+    let draws0 ← fld j "draws" >>= asList asDraw
+    let draws := draws0.take (sampleCount (.bootstrap bt) bigN)
     let r := evalBootstrap m ncf bt bootNc mo d preds draws
     let full := evalBootstrap m ncf bt bootNc false d preds draws
+    let okObs := (r.rows.filter (fun row => headOk row.evals)).map (fun row => row.obs false)
     pure (obj [("evals", ofList (fun (row : Row Float) => ofList ofOF row.evals) r.rows),
                ("nc", ofList (fun (row : Row Float) => ofOpt ofPair row.nc) r.rows),
                ("nc_data", ofOpt ofPair r.ncData),
-               ("cov", ofMat r.cov), ("cov_with_nc", ofMat full.cov), ("dof", ofInt r.dof)])
+               ("cov", ofMat r.cov), ("cov_with_nc", ofMat full.cov), ("dof", ofInt r.dof),
+               ("cov_defined", Json.bool (covDefined okObs)),
+               ("meta", ofMeta (resultMeta (.bootstrap bt) { sz with bootNc := bootNc }))])
   | "crossval" =>
-    let (folds, hasCeil) ← fld j "folds" >>= asFolds d
+    let fj ← fld j "folds"
     let calcNc ← asBool (fldD j "calc_nc" (Json.bool true))
-    let r := crossval m fit predict ncf d nModels folds hasCeil calcNc
-    pure (obj [("evals", ofList (ofList ofOF) r.evals), ("nc", ofList ofPair r.nc)])
+    let answer := fun (r : CvResult Float) (hasCeil : Bool) =>
+      obj [("evals", ofList (ofList ofOF) r.evals), ("nc", ofList ofPair r.nc),
+           ("meta", ofMeta (resultMeta .crossval
+             { sz with N := 1, nFolds := r.evals.length, nOkFolds := r.nc.length,
+                       hasCeil := hasCeil, calcNc := calcNc }))]
+    match ← asSetsReq fj with
+    | some req =>
+      -- generators that may reject the request: the explicit outcome
+      match crossvalOn m fit predict ncf d nModels req calcNc with
+      | .error e => pure (obj [("exc", Json.str e.name)])
+      | .ok r =>
+        let hasCeil := match req with
+          | .kFoldPattern _ _ => false
+          | _ => true
+        pure (answer r hasCeil)
+    | none =>
+      let (folds, hasCeil) ← asFolds d fj
+      pure (answer (crossval m fit predict ncf d nModels folds hasCeil calcNc) hasCeil)
   | "bcv" =>
-    let kr ← fld j "kr" >>= asNat
-    let kp ← fld j "kp" >>= asNat
+    let kr0 ← asOpt asNat (fldD j "kr" Json.null)
+    let kp0 ← asOpt asNat (fldD j "kp" Json.null)
+    let (kr, kp) := bcvDefaultK eNum gr gp kr0 kp0
     let nCv ← fld j "n_cv" >>= asNat
     let uc ← fld j "use_correction" >>= asBool
-    let draws ← fld j "draws" >>= asList (fun e => do
+    let draws0 ← fld j "draws" >>= asList (fun e => do
       let dr ← asDraw e
       let reps ← asList asCvDraw (fldD e "reps" (Json.arr #[]))
-      pure (dr, reps))
+      pure (dr, reps.take (Rsa.Gen.C04.repsCv nCv)))
+    let draws := draws0.take (sampleCount (.bcv bt) bigN)
     let r := bootstrapCrossval m fit predict ncf bt d nModels kr kp nCv uc draws
-    pure (obj [("rows", ofList ofCvRow r.rows), ("cov", ofMat r.cov), ("dof", ofInt r.dof)])
+    pure (obj [("rows", ofList ofCvRow r.rows), ("cov", ofMat r.cov), ("dof", ofInt r.dof),
+               ("kr", ofNat kr), ("kp", ofNat kp),
+               ("cov_defined", Json.bool (covDefined ((okReps r.rows).map (fun _ => [])))),
+               ("meta", ofMeta (resultMeta (.bcv bt) { sz with kr := kr, kp := kp, nCv := nCv }))])
   | "dual" =>
-    let kr ← fld j "kr" >>= asNat
-    let kp ← fld j "kp" >>= asNat
+    let kr0 ← asOpt asNat (fldD j "kr" Json.null)
+    let kp0 ← asOpt asNat (fldD j "kp" Json.null)
+    let (kr, kp) := dualDefaultK eNum gr gp kr0 kp0
     let nCv0 ← fld j "n_cv" >>= asNat
     let uc0 ← fld j "use_correction" >>= asBool
     let (nCv, uc) := dualOptions kr kp nCv0 uc0
-    let draws ← fld j "draws" >>= asList (fun e => do
+    let draws0 ← fld j "draws" >>= asList (fun e => do
       let dr ← asDraw e
       let reps ← asList (asList asCvDraw) (fldD e "reps" (Json.arr #[]))
-      pure (dr, reps))
+      pure (dr, reps.take (Rsa.Gen.C04.repsDual nCv)))
+    let draws := draws0.take (sampleCount .dual bigN)
     let r := evalDualBootstrap m fit predict ncf d nModels kr kp nCv uc draws
+    let nOk := (r.rows.filter (fun row => cvRowOk (row.getD 0 none))).length
     pure (obj [("rows", ofList (ofList ofCvRow) r.rows), ("cov", ofList ofMat r.cov),
-               ("dof", ofInt r.dof), ("n_cv", ofNat nCv)])
+               ("dof", ofInt r.dof), ("n_cv", ofNat nCv), ("kr", ofNat kr), ("kp", ofNat kp),
+               ("cov_defined", Json.bool (covDefined ((List.range nOk).map (fun _ => [])))),
+               ("meta", ofMeta (resultMeta .dual { sz with kr := kr, kp := kp, nCv := nCv }))])
   | "random" =>
-    let nr ← fld j "nr" >>= asNat
-    let np ← fld j "np" >>= asNat
+    let nr0 ← asOpt asNat (fldD j "nr" Json.null)
+    let np0 ← asOpt asNat (fldD j "np" Json.null)
+    let (nr, np) := randomDefaultN eNum gr gp nr0 np0
     let nCv ← fld j "n_cv" >>= asNat
     let uc ← fld j "use_correction" >>= asBool
-    let draws ← fld j "draws" >>= asList (fun e => do
+    let draws0 ← fld j "draws" >>= asList (fun e => do
       let dr ← asDraw e
       let sh ← asList asShufflePair (fldD e "shuffles" (Json.arr #[]))
       pure (dr, sh))
+    let draws := draws0.take (sampleCount (.random bt) bigN)
     let r := evalDualBootstrapRandom m fit predict ncf bt d nModels nr np nCv uc draws
-    pure (obj [("rows", ofList ofCvRow r.rows), ("cov", ofMat r.cov), ("dof", ofInt r.dof)])
+    pure (obj [("rows", ofList ofCvRow r.rows), ("cov", ofMat r.cov), ("dof", ofInt r.dof),
+               ("nr", ofNat nr), ("np", ofNat np),
+               ("cov_defined", Json.bool (covDefined ((okReps r.rows).map (fun _ => [])))),
+               ("meta", ofMeta (resultMeta (.random bt) { sz with nCv := nCv }))])
   | "testset" =>
     let draws ← fld j "draws" >>= asList asDraw
     let rows := draws.map (testsetRow m fit predict bt d nModels)
